@@ -5,6 +5,8 @@ CONSTANTS
   MaxUid = 63
   CompactAt = 16
   Compact = TRUE
+  SortKindOrder <- MCSortKindOrder
+  WithSortFull = FALSE
   Wrap = FALSE
   MaxInit = 2
   MaxElems = 4
